@@ -58,6 +58,24 @@ def child_env(mode):
 
 
 # ------------------------------------------------------------------ tranche
+def guarded(fn):
+    """pre-step runs must never block the tranche: same wall-clock guard as batch runs,
+    every outcome (violation, exception, timeout) is ignored here."""
+    import signal
+    import core
+    limit = int(os.environ.get("VERIF_HANG_LIMITS", "300,2400").split(",")[0])
+    signal.signal(signal.SIGALRM, core._alarm)
+    signal.alarm(limit)
+    try:
+        fn()
+    except core.RunTimeout:
+        pass
+    except Exception:
+        pass
+    finally:
+        signal.alarm(0)
+
+
 def pre_steps(mod, mode, tier):
     """deterministic steps every tranche parent performs before forking its chunk processes
     (and every chunk replay performs before its runs): JIT warm-up so that children inherit
@@ -69,10 +87,7 @@ def pre_steps(mod, mode, tier):
         for i in range(nwarm):
             rng = core.run_rng("warmup", mod.PROP_ID, i)
             cfg = mod.gen_config(rng, tier)
-            try:
-                core.execute(mod.RunClass, cfg, rng=rng, max_steps=min(cfg["steps"], 40))
-            except Exception:
-                pass
+            guarded(lambda: core.execute(mod.RunClass, cfg, rng=rng, max_steps=min(cfg["steps"], 40)))
         if hasattr(mod, "warm_extra"):
             mod.warm_extra()
         if hasattr(mod, "drain_batch_stats"):
@@ -172,10 +187,7 @@ def line_reach(mod, tier, nruns=150):
         for i in range(nruns):
             rng = core.run_rng("reach", mod.PROP_ID, i)
             cfg = mod.gen_config(rng, tier)
-            try:
-                core.execute(mod.RunClass, cfg, rng=rng, max_steps=min(cfg["steps"], 60))
-            except Exception:
-                pass
+            guarded(lambda: core.execute(mod.RunClass, cfg, rng=rng, max_steps=min(cfg["steps"], 60)))
     finally:
         mon.set_events(tool, 0)
         mon.register_callback(tool, mon.events.LINE, None)
